@@ -26,7 +26,7 @@ CLAIMED = {
     "C03": dict(
         technique='layer 1: contracts on the real stale check, rewrite, pruning, run composition (z3); layer 2: SMT lemmas over those contracts (contracts/history.py: nearest-stored-ancestor form of Stale, inductive invariant J over every history step, fresh => from-scratch value, successful-run summary) by rank-induction steps and the invariant rule; bounded native probe over generated histories as validation',
         text="Proved per function: process computes the declarative Stale / M spec for every node; _add_value_store performs exactly the specified whole-graph rewrite; plan_with_value_stores requires exactly the write nodes of the stale entries; prune_plan keeps the ancestors; run composes them. Proved as lemmas over these contracts, for graphs of any size: the invariant J ('a stored value is consistent with the current contents of its nearest stored ancestors whenever the modified times look consistent') holds initially and is preserved by every store write that takes effect (in any order, at any cut), source update, deletion and fresh_time change; J and not Stale(n) imply that n's stored value is the from-scratch value; after a successful run every stored value was computed from the final contents of its nearest stored ancestors and nothing is out of date.",
-        note='The lemmas are first-order VCs with the induction hypothesis assumed (rank induction over the DAG, invariant rule over the history): the two meta-steps are not mechanised. Hypotheses taken from other contracts and named in the evidence: H-ATOMIC (C09/C04/C01), H-TIME and H-DET (statement of C03), C11 atomic store writes. Dependent sources written by a side effect are outside the store view (scope limit). The bounded probe (histories <= 6 steps over plans <= 8 nodes) validates the whole argument natively and is never counted as proved.',
+        note='The lemmas are first-order VCs with the induction hypothesis assumed (rank induction over the DAG, invariant rule over the history); the two rules themselves are proved in Lean (lemmas/Induction.lean), their instantiation with the step VCs is by hand. Hypotheses taken from other contracts and named in the evidence: H-ATOMIC (C09/C04/C01), H-TIME and H-DET (statement of C03), C11 atomic store writes. Dependent sources written by a side effect are outside the store view (scope limit). The bounded probe (histories <= 6 steps over plans <= 8 nodes) validates the whole argument natively and is never counted as proved.',
     ),
     "C04": dict(
         technique="same engine invariant as C01 (token exclusivity, put only of not-yet-enqueued nodes), queue contracts, all_ancestors loop invariant, prune_plan composition",
@@ -54,7 +54,7 @@ CLAIMED = {
     "C08": dict(
         technique='the per-function contracts of C03/C05/C09 plus the C11 file-level proof; the cut-point argument as SMT lemmas over those contracts (contracts/history.py: J is inductive under every write that takes effect, J and not Stale => from-scratch value, frame of a write)',
         text="Proved pieces: the invariant GI holds after every atomic step (so the set of effected operations is predecessor-closed at every cut), nothing downstream of a failure takes effect (C06), rebuilt values are written before their consumers start (C09), file stores publish atomically at every fault point (C11). Proved as lemmas (z3, any graph size): J is preserved by every single store write in any order, hence holds after every cut; J and 'treated as up to date' imply the from-scratch value; a write changes the staleness of no node it does not reach, and a value completely written while its nearest stored ancestors were up to date is itself treated as up to date.",
-        note="Rank induction and the invariant rule are the unmechanised meta-steps; hypotheses H-ATOMIC / H-TIME / H-DET as under C03. Process death between store operations is a cut with no handler; os._exit is modelled as 'no further operation takes effect'. Bounded probe (failed runs inside generated histories) as validation.",
+        note="Rank induction and the invariant rule are proved as schemas in Lean and instantiated by hand; hypotheses H-ATOMIC / H-TIME / H-DET as under C03. Process death between store operations is a cut with no handler; os._exit is modelled as 'no further operation takes effect'. Bounded probe (failed runs inside generated histories) as validation.",
     ),
     "C09": dict(
         technique="whole-graph postcondition of the real _add_value_store on a symbolic MultiDiGraph (z3, finite-scope refutation), output redirection in plan_with_value_stores and run; stale propagation through C05's contracts; L-BYPASS in Lean",
